@@ -198,7 +198,10 @@ class ChallengeField(Field):
         """
         Set default value by creating a :class:`DigestValue` if the default value is a string.
         """
-        if self.default is None:
+        if self.default is None or (
+            isinstance(self.env, str) and self.env and os.environ.get(self.env)
+        ):
+            # the environment variable, when set, wins over the declared default
             super().__setdefault__(cfg)
             return
 
